@@ -70,14 +70,14 @@ MUTANTS = [
          new="				if left_schema != right_schema:", rules=["a.key-validation"], desc="a None on one side of the key makes the join raise"),
     dict(id="bool-keys-rejected", module="table", old="			allowed_types = (int, str, bool, date, datetime, object)",
          new="			allowed_types = (int, str, date, datetime, object)", rules=["a.key-validation"]),
-    dict(id="inner-empty-guard-on-right-rows", module="table", old="		if all(len(col) == 0 for col in result_data):\n			return Table(())",
-         new="		if len(other) == 0 or len(self) == 1:\n			return Table(())", rules=["d.no-early-result"]),
+    dict(id="inner-empty-guard-on-right-rows", module="table", old="		# (an empty result is a table with zero rows that still has every column, under its name)\n",
+         new="		# (an empty result is a table with zero rows that still has every column, under its name)\n		if len(other) == 0 or len(self) == 1:\n			return Table(())\n", rules=["d.no-early-result"]),
     dict(id="right-value-into-left-buffer", module="table", count=3, nth=0,
          old="					append_cols[c_idx](col[left_idx])\n", new="					append_cols[c_idx](col[right_idx])\n",
          rules=["c.buffers"]),
     dict(id="base-off-by-one", module="table", count=1,
-         old="				# Right columns\n				base = n_left_cols\n				for offset, col in enumerate(right_cols):\n					append_cols[base + offset](col[right_idx])\n		\n		# Handle empty result",
-         new="				# Right columns\n				base = n_left_cols - 1\n				for offset, col in enumerate(right_cols):\n					append_cols[base + offset](col[right_idx])\n		\n		# Handle empty result",
+         old="				# Right columns\n				base = n_left_cols\n				for offset, col in enumerate(right_cols):\n					append_cols[base + offset](col[right_idx])\n		\n		# (an empty result is",
+         new="				# Right columns\n				base = n_left_cols - 1\n				for offset, col in enumerate(right_cols):\n					append_cols[base + offset](col[right_idx])\n		\n		# (an empty result is",
          rules=["c.buffers"]),
     dict(id="probe-skips-first-row", module="table", count=3, nth=0,
          old="		for left_idx in range(left_nrows):", new="		for left_idx in range(1, left_nrows):", rules=["b.loops"]),
@@ -103,12 +103,12 @@ MUTANTS = [
          new="		for col_idx, orig_col in enumerate(left_cols):\n			result_cols.append(Vector(result_data[col_idx], dtype=orig_col._dtype, name=orig_col._name))\n		\n		# Right columns (preserve name)",
          rules=["e.wrap"]),
     dict(id="iterate-a-set", module="table", count=1,
-         old="		# Handle empty result\n		if all(len(col) == 0 for col in result_data):",
-         new="		for k in set(right_index):\n			right_index[k] = list(right_index[k])\n		# Handle empty result\n		if all(len(col) == 0 for col in result_data):",
+         old="		# (an empty result is a table with zero rows that still has every column, under its name)\n",
+         new="		for k in set(right_index):\n			right_index[k] = list(right_index[k])\n		# (an empty result is a table with zero rows that still has every column, under its name)\n",
          rules=["f.determinism"]),
     dict(id="memo-on-right-table", module="table", count=1,
-         old="		# Handle empty result\n		if all(len(col) == 0 for col in result_data):",
-         new="		other._length = right_nrows\n		# Handle empty result\n		if all(len(col) == 0 for col in result_data):",
+         old="		# (an empty result is a table with zero rows that still has every column, under its name)\n",
+         new="		other._length = right_nrows\n		# (an empty result is a table with zero rows that still has every column, under its name)\n",
          rules=["g.purity"]),
     dict(id="rename-operand-column", module="table", count=1,
          old="		for col_idx, orig_col in enumerate(left_cols):\n			result_cols.append(Vector(result_data[col_idx], name=orig_col._name))\n		\n		# Right columns (preserve name)",
